@@ -20,8 +20,7 @@ def run(tier):
         drv = drvs["ptr_driver" + ("" if abi == "wasm32" else "_" + abi)]
         tpath = os.path.join(wd, "c17_%s.ndjson" % abi)
         p = vp.run([drv, "c17", tpath, str(vp.seed()), "1" if thorough else "0"], timeout=1100)
-        if p.returncode != 0:
-            raise vp.Broken("ptr_driver c17/%s rc=%d %s" % (abi, p.returncode, p.stderr[-300:]))
+        vp.exit_ok(p, "ptr_driver c17/%s" % abi)
         evs, bd = ac.validate(chk, tpath, "c17_" + abi)
         for e in evs:
             e["abi"] = abi
